@@ -143,6 +143,17 @@ C_SchedLock(c) ==
     /\ cpc' = [cpc EXCEPT ![c] = "ul"]
     /\ UNCHANGED <<prog, ip, cancelQ, exitFlag, refs, tpc, listCpy, cancelCpy, runTime, timeout, deadline, waiting, timedout,
                    tDone, inner, now, inv, nodes, closed>>
+(* <<"Z", T>>: the client sleeps until the clock shows T (absolute) - a moment at which the client cannot do anything *)
+C_Sleep(c) ==
+    /\ HasOp(c) /\ cpc[c] = "op" /\ Cur(c)[1] = "Z"
+    /\ cpc' = [cpc EXCEPT ![c] = "slp"]
+    /\ UNCHANGED <<prog, ip, mtx, schedQ, cancelQ, exitFlag, refs, tpc, listCpy, cancelCpy, runTime, timeout, deadline, waiting,
+                   timedout, tDone, inner, due, now, inv, handed, nodes, closed>>
+C_Wake(c) ==
+    /\ HasOp(c) /\ cpc[c] = "slp" /\ now >= Cur(c)[2]
+    /\ Adv(c)
+    /\ UNCHANGED <<prog, mtx, schedQ, cancelQ, exitFlag, refs, tpc, listCpy, cancelCpy, runTime, timeout, deadline, waiting,
+                   timedout, tDone, inner, due, now, inv, handed, nodes, closed>>
 (* cancel: only if the schedule call has started and the client has not seen the task run (racy by nature) *)
 C_CancelSkip(c) ==
     /\ HasOp(c) /\ cpc[c] = "op" /\ Cur(c)[1] = "X"
@@ -219,7 +230,7 @@ Done == AllDone /\ UNCHANGED vars
 
 TNext == T_Chk \/ T_Exit \/ T_LockSwap \/ T_Unlock1 \/ T_RunOne \/ T_Calc \/ T_Lock2 \/ T_Pred \/ T_Wait \/ T_Timeout
             \/ T_Reacquire \/ T_Unlock2
-CNext(c) == C_SchedLock(c) \/ C_CancelSkip(c) \/ C_CancelLock(c) \/ C_Unlock(c) \/ C_Notify(c) \/ C_ReleaseDrop(c)
+CNext(c) == C_Sleep(c) \/ C_Wake(c) \/ C_SchedLock(c) \/ C_CancelSkip(c) \/ C_CancelLock(c) \/ C_Unlock(c) \/ C_Notify(c) \/ C_ReleaseDrop(c)
             \/ D_StoreExit(c) \/ D_NotifyAll(c) \/ D_Join(c) \/ D_CleanUp(c)
 Next == TNext \/ (\E c \in Clients : CNext(c)) \/ Tick \/ Done
 
@@ -238,5 +249,14 @@ NoLeak == closed => nodes = 0
 (* joining, the thread is not asleep on its condition variable                                              *)
 NoSleepThroughExit == ~(exitFlag /\ tpc = "wt" /\ waiting /\ \E c \in Clients : cpc[c] = "d_jn")
 MutexSane == mtx \in {"free", "T"} \cup Clients
+(* Quiescence (what checks/c08.py observes as the event Idle): the scheduler thread is blocked in its timed wait with its  *)
+(* deadline still ahead, and every client is asleep, finished or waiting for the thread to end.  QuietClock is the harness's  *)
+(* virtual clock as an action constraint: time passes only at such moments.  Under it a handed-over task whose time has       *)
+(* come has been invoked whenever the system is quiescent - for every interleaving of the hand-over with the thread's loop.  *)
+ClientQuiet(c) == ~HasOp(c) \/ (cpc[c] = "slp" /\ now < Cur(c)[2]) \/ cpc[c] = "d_jn"
+Quiescent == /\ tpc = "wt" /\ waiting /\ (deadline = FAR \/ deadline > now)
+             /\ \A c \in Clients : ClientQuiet(c)
+QuietClock == now' # now => Quiescent
+NoDueTaskWhenQuiet == (Quiescent /\ ~exitFlag) => \A t \in handed : inv[t] = <<>> => due[t] > now
 ReleaseReturns == <>AllDone
 =============================================================================
